@@ -17,7 +17,9 @@ FPM_MUL = [0.002994791667, 0.001041666667, 0]
 SRAM_RD = [9.02427321e-04, -2.68847858e-02, 2.08900804e-01, 0.0]
 DRAM_RD = [20.3125, 0]
 FP = {"fp32": (0.9, 3.7), "fp16": (0.4, 1.1)}
-PROGRAMS = ["dense", "conv_dense", "dw_conv", "conv_pool_dense", "diamond_add", "conv_bn_act", "po2_binary"]
+# residual_add_conv: a 2-input Add on rank-4 feature maps; triple_add: a 3-input Add on rank-2 tensors (fan-in != rank)
+PROGRAMS = ["dense", "conv_dense", "dw_conv", "conv_pool_dense", "diamond_add", "conv_bn_act", "po2_binary",
+            "residual_add_conv", "triple_add"]
 MEM = list(itertools.product(("dram", "sram", "fixed"), ("dram", "sram"), (True, False), (0, 2 ** 20)))
 
 
@@ -60,6 +62,19 @@ def build(prog):
     a = qkeras.QDense(3, kernel_quantizer=qb, bias_quantizer=qb2, name="da")(inp)
     b = qkeras.QDense(3, kernel_quantizer="binary(alpha=1)", bias_quantizer=qb2, name="db")(inp)
     x = L.Add(name="add")([a, b])
+    x = qkeras.QActivation("quantized_bits(6,2,1)", name="a0")(x)
+  elif prog == "residual_add_conv":
+    inp = L.Input((5, 5, 2), name="inp")
+    a = qkeras.QConv2D(2, 1, kernel_quantizer=qb, bias_quantizer=qb2, name="ca")(inp)
+    b = qkeras.QConv2D(2, 1, kernel_quantizer="ternary(alpha=1)", bias_quantizer=qb2, name="cb")(inp)
+    x = L.Add(name="add")([a, b])
+    x = qkeras.QActivation("quantized_bits(6,2,1)", name="a0")(x)
+  elif prog == "triple_add":
+    inp = L.Input((5,), name="inp")
+    a = qkeras.QDense(3, kernel_quantizer=qb, bias_quantizer=qb2, name="da")(inp)
+    b = qkeras.QDense(3, kernel_quantizer="binary(alpha=1)", bias_quantizer=qb2, name="db")(inp)
+    c = qkeras.QDense(3, kernel_quantizer="quantized_bits(3,0,1,alpha=1)", bias_quantizer=qb2, name="dc")(inp)
+    x = L.Add(name="add")([a, b, c])
     x = qkeras.QActivation("quantized_bits(6,2,1)", name="a0")(x)
   elif prog == "conv_bn_act":
     inp = L.Input((5, 5, 3), name="inp")
